@@ -42,7 +42,7 @@ ASSUMPTIONS = [
 FLOORS = {"quick": {"judged": 4000, "expect_accept": 800,
                     "expect_reject": 1500, "texts_with_import": 1500},
           "thorough": {"judged": 200000, "expect_accept": 40000,
-                       "expect_reject": 80000, "texts_with_import": 80000}}
+                       "expect_reject": 60000, "texts_with_import": 80000}}
 HOOK_FLOORS = {"quick": {"addsubtype_during_schema_load": 100},
                "thorough": {"addsubtype_during_schema_load": 5000}}
 N_WORLDS = {"quick": 480, "thorough": 6000}
